@@ -248,18 +248,28 @@ def _curve_shapes(tier):
     for alg in ('alg1', 'alg2'):
         out.append(dict(p=2, mult=[1], rational=False, alg=alg, clamped=False))
     out.append(dict(p=1, mult=[], rational=True, alg='alg1', clamped=False))
+    # the other shipped span search (selected with find_span_func): derivatives at a knot are still taken from the right
+    for p, mult in ((1, [1, 1, 1]), (2, [1, 1, 1]), (2, [2]), (3, [1])):
+        for alg in ('alg1', 'alg2'):
+            out.append(dict(p=p, mult=mult, rational=False, alg=alg, clamped=True, span='binsearch'))
+    out.append(dict(p=2, mult=[1], rational=True, alg='alg1', clamped=True, span='binsearch'))
     if tier == 'thorough':
         out.append(dict(p=3, mult=[1], rational=False, alg='alg1', clamped=False))
         out.append(dict(p=3, mult=[1], rational=False, alg='alg2', clamped=False))
     return out
 
 
-def _curve_setup(ctx, p, mult, rational, clamped=True, dim=2):
+def _curve_setup(ctx, p, mult, rational, clamped=True, dim=2, span=None):
     U, inner, n = shapes.make_kv(ctx, p, mult, clamped=clamped, normalized=clamped)
     u = shapes.param_in(ctx, 'u', U[p], U[n])
     P = shapes.net(ctx, 'P', n, dim)
     W = shapes.weights(ctx, 'w', n) if rational else None
-    crv = shapes.build_curve(ctx, p, U, P, W, normalize_kv=clamped)
+    span_func = getattr(ctx.geomdl('helpers'), 'find_span_' + span) if span else None
+    if span == 'binsearch':
+        # tol_separated (A1): find_span_binsearch snaps parameters within 10e-6 of the domain end to the last span
+        shapes.separated_knots(ctx, U, Fraction(1, 10 ** 5))
+        ctx.assume(ctx.sep(u, U[n], Fraction(1, 10 ** 5)))
+    crv = shapes.build_curve(ctx, p, U, P, W, normalize_kv=clamped, span_func=span_func)
     Pw = shapes.homog(P, W)
     if rational:
         _assume_weight_pos(ctx, spec.curve_point(p, U, [[w] for w in W], u)[0])
@@ -271,14 +281,14 @@ def _curve_setup(ctx, p, mult, rational, clamped=True, dim=2):
                       'helpers.basis_function_ders', 'helpers.basis_function_all', 'helpers.curve_deriv_cpts',
                       'helpers.find_span_linear', 'linalg.binomial_coefficient'],
           quick=lambda: _curve_shapes('quick'), thorough=lambda: _curve_shapes('thorough'))
-def curve_derivs(ctx, p, mult, rational, alg, clamped):
+def curve_derivs(ctx, p, mult, rational, alg, clamped, span=None):
     """requires valid knot vector, u in the domain, positive weights.
     ensures for every requested order 0..p+2: derivatives(u, order) has order+1 entries and entry k == D^k C(u)
     (from the right at knots); zero above the degree for non-rational curves.
     alg1 = A3.2 (+A4.2 for rational), alg2 = A3.3/A3.4 (CurveEvaluator2)."""
-    U, n, u, P, W, Pw, crv = _curve_setup(ctx, p, mult, rational, clamped)
+    U, n, u, P, W, Pw, crv = _curve_setup(ctx, p, mult, rational, clamped, span=span)
     if alg == 'alg2':
-        crv.evaluator = ctx.geomdl('evaluators').CurveEvaluator2()
+        crv.evaluator = ctx.geomdl('evaluators').CurveEvaluator2(**({'find_span_func': crv._span_func} if span else {}))
     K = p + 2
     want = curve_oracle(ctx, p, U, Pw, u, rational, K)
     for order in range(0, K + 1):
